@@ -291,11 +291,16 @@ def campaign_differential(ck: Check, lab: Lab, n_cases: int, n_fresh: int, seeds
             ck.infra_errors.append(f"child {nm} crashed: {r['crash']}")
     if ck.infra_errors:
         return
+    state_camp = ck.campaign("reviewed class-level objects (Gen/SetSites.classMutables) unchanged by the generate() calls of each batch process")
+    state_camp.evaluations += len(state) * sum(1 for nm in names if nm.startswith("P"))
+    state_camp.distinct.update(f"{m}:{c}.{a}" for m, c, a in state)
     for nm in names:
         camp.hit(f"process:{'batch' if nm.startswith('P') else 'fresh'}")
         for key, (b, a) in res[nm].get("state_changed", {}).items():
-            ck.fail({"oracle": "class_state", "object": key}, {"kind": "class_state", "object": key},
-                    f"class-level object {key} changed during generate() calls in process {nm}: {b[:120]} -> {a[:120]}")
+            # the reviewed tags (Model/Determinism.reviewedClassMutables) say these objects never change: a change is a
+            # disagreement between the review and the code, not yet a violation — the output comparison below decides
+            state_camp.evaluations += 1
+            ck.disagree(state_camp, {"object": key, "process": nm}, "unchanged (reviewed tag)", f"{b[:100]} -> {a[:100]}")
     for c in cases:
         camp.hit(f"input:{c['kind']}")
         camp.hit(f"kind:{c['model']}")
@@ -319,6 +324,11 @@ def campaign_differential(ck: Check, lab: Lab, n_cases: int, n_fresh: int, seeds
                                      "processes": {nm: {"seed": cfgs[nm]["seed"], "listing": cfgs[nm]["listing"], "cwd": cfgs[nm]["cwd"].replace(str(lab.root), "<scratch>")} for nm in outs},
                                      "files": sorted(outs[ref_name]["files"]), "identical": True})
             continue
+        n_diag = ck.notes.get("diagnosed", 0)
+        if n_diag >= 3 and len(ck.failures) >= 1:
+            camp.hit("further-mismatch-not-diagnosed")
+            continue
+        ck.notes["diagnosed"] = n_diag + 1
         factor = diagnose(lab, c, cfgs)
         cls = {"oracle": "differential", "entry": "generate", "factor": factor, "input": c["kind"], "same_basename": bool(c.get("same_basename"))}
         ck.fail(cls, {"kind": "differential", "case": strip(c), "dir_files": {f: Path(c["path"], f).read_text() for f in c.get("files", [])} if c.get("path") else None},
